@@ -416,11 +416,25 @@ class LibsModel:
             if attr in ('site_properties', 'frame_properties'):
                 return AV(ty='dict', deps=d, maybe_none=True)
             if attr == 'metadata':
-                return AV(ty='dict', deps=d, store='attr:Trajectory.metadata', metadata=True)
+                return AV(ty='dict', deps=d, store='attr:Trajectory.metadata', metadata=True,
+                          kw={'temperature': AV(ty='float', mono=Mono.atom('temperature', (0, 0, 0), {'K': 1}), deps=frozenset({'attr:traj.temperature'}))},
+                          open_kw=True)
             if attr in ('to_positions', 'to_displacements', 'get_structure', 'extend', 'from_structures', 'write_Xdatcar',
                         'as_dict', 'from_file', 'from_molecules', '__getitem__', '__len__', '__iter__'):
                 return AV(ty='extmethod', recv=base, name=attr, ext_bases=tuple(ext))
         return None
+
+    def metadata_av(self, d=None):
+        return AV(ty='dict', deps=d, store='attr:Trajectory.metadata', metadata=True,
+                  kw={'temperature': AV(ty='float', mono=Mono.atom('temperature', (0, 0, 0), {'K': 1}),
+                                        deps=frozenset({'attr:traj.temperature'}))}, open_kw=True)
+
+    def populate_symbolic(self, interp, st, base, ci):
+        super().populate_symbolic(interp, st, base, ci)
+        if ci.qualname == TRAJ:
+            # a trajectory of unknown origin: metadata as documented by the loaders
+            st.heap[base.oid]['metadata'] = self.metadata_av(base.deps)
+            st.heap[base.oid].pop('#mode', None)
 
     def ext_base_init(self, interp, st, obj, ci, args, kwargs, node):
         _, ext = interp.p.mro(ci)
